@@ -13,7 +13,7 @@ EXTENDS Integers, Sequences, SequencesExt, FiniteSets, Json, IOUtils, TLC
 
 Thorough == IOEnv.VERIF_TIER = "thorough"
 Seed     == atoi(IOEnv.VERIF_SEED)
-NArch    == IF "C02_NARCH" \in DOMAIN IOEnv THEN atoi(IOEnv.C02_NARCH) ELSE IF Thorough THEN 1200 ELSE 48
+NArch    == IF "C02_NARCH" \in DOMAIN IOEnv THEN atoi(IOEnv.C02_NARCH) ELSE IF Thorough THEN 800 ELSE 48
 
 Methods  == <<"none", "zlib", "bzip2">>
 Encs     == <<"plain", "enc", "fix">>
